@@ -315,7 +315,16 @@ static void do_case(char mode, char **save){
         puthex(stdout,(unsigned char*)msgbuf,len);
         decode_list("DO", orig, len);
         BUFR_Tables *rcv = master_tables();              /* the receiver: master tables + what the update message carried */
+        /* a receiver that has been in use: every descriptor of the update was looked up before the update arrives
+           (the master tables define some of the local-range descriptors too) */
+        { int i, nb = ext->local.tableB ? arr_count(ext->local.tableB) : 0;
+          for(i=0;i<nb;i++){ EntryTableB *e = *(EntryTableB**)arr_get(ext->local.tableB, i); (void)bufr_fetch_tableB(rcv, e->descriptor); } }
         bufr_merge_tables(rcv, ext);
+        /* a lookup on the receiver's tables now answers with the definition the update carried */
+        { int i, nb = ext->local.tableB ? arr_count(ext->local.tableB) : 0;
+          for(i=0;i<nb;i++){ EntryTableB *e = *(EntryTableB**)arr_get(ext->local.tableB, i); EntryTableB *g = bufr_fetch_tableB(rcv, e->descriptor);
+            if(!g || g->encoding.nbits != e->encoding.nbits || g->encoding.scale != e->encoding.scale || g->encoding.reference != e->encoding.reference || g->encoding.type != e->encoding.type){
+              printf(" FXBAD=%06d:%d/%d/%d", e->descriptor, g?g->encoding.nbits:-1, g?g->encoding.scale:0, g?g->encoding.reference:0); break; } } }
         decode_list("DX", rcv, len);
         bufr_free_tables(rcv);
         /* diagnosis only: the same with the two encoding fields bufr_extract_tables never assigns set as bufr_new_EntryTableB sets them */
